@@ -39,6 +39,7 @@ type c15Config struct {
 	Style   string `json:"registration"` // use | route | group
 	Env     string `json:"env"`
 	BuiltIn string `json:"env_while_building,omitempty"` // when set, the stack is built in this environment and Env is set afterwards
+	Reconf  bool   `json:"middleware_replaced_after_first_requests,omitempty"` // the application first runs with as many do-nothing middleware, serves both routes, and only then gets the real stack through Handlers()
 }
 
 func (c c15Config) marker() string {
@@ -147,7 +148,13 @@ func c15Build(c c15Config) *c15World {
 	}
 	switch c.Style {
 	case "use":
-		w.f.Use(hs...)
+		if c.Reconf {
+			for range hs {
+				w.f.Use(func() {})
+			}
+		} else {
+			w.f.Use(hs...)
+		}
 		w.f.Get("/p", final)
 		if c.Phase != "unresolved-dependency" {
 			w.f.Get("/n", final)
@@ -165,6 +172,17 @@ func c15Build(c c15Config) *c15World {
 				w.f.Get("n", final)
 			}
 		}, hs[c.R+1:]...)
+	}
+	if c.Reconf && c.Style == "use" {
+		// serve both routes once with the do-nothing stack, then install the real one
+		for _, p := range []string{"/p", "/n"} {
+			func() {
+				defer func() { _ = recover() }()
+				w.f.ServeHTTP(&c01Spy{hdr: http.Header{}}, newReq("GET", p))
+			}()
+		}
+		w.f.Handlers(hs...)
+		w.events = nil
 	}
 	if c.Phase == "unresolved-dependency" {
 		// the normal route has the same stack minus the unresolvable handler
@@ -302,6 +320,9 @@ func c15Configs(thorough bool) []c15Config {
 									continue
 								}
 								out = append(out, c15Config{N: n, R: r, P: p, Phase: ph, Between: bm, Value: v, Style: st})
+								if st == "use" && (v == "string" || v == "struct") {
+									out = append(out, c15Config{N: n, R: r, P: p, Phase: ph, Between: bm, Value: v, Style: st, Reconf: true})
+								}
 							}
 						}
 					}
